@@ -6,9 +6,10 @@ import json, os, re, sys
 ROOT = os.path.normpath(os.path.join(os.path.dirname(os.path.abspath(__file__)), '..'))
 pid = sys.argv[1]
 notes = open(os.path.join(ROOT, 'notes', f'{pid}.md')).read()
-i = notes.rfind('## Round 3')
-if i < 0:
-    sys.exit(f'{pid}: no "## Round 3" section')
+ms = list(re.finditer(r'^## Round \d', notes, re.M))
+if not ms:
+    sys.exit(f'{pid}: no "## Round N" section')
+i = ms[-1].start()
 r3 = notes[i:]
 
 
